@@ -393,7 +393,13 @@ class LatticeColumn:
         c = self.o[matching.obs_ne]
         if matching.key in c:
             other_matching = c[matching.key]  # type: BaseMatching
-            other_matching.update(matching)
+            if other_matching.stop and not matching.stop:
+                # A stopped matching is only stored when debugging. Replace it as if it had never been
+                # stored, such that the order of the matchings does not depend on the log level.
+                del c[matching.key]
+                c[matching.key] = matching
+            else:
+                other_matching.update(matching)
         else:
             c[matching.key] = matching
         return c[matching.key]
@@ -967,14 +973,14 @@ class BaseMatcher:
                             if m_next.key in cur_lattice_new:
                                 if m_next.shortkey in lattice_best:
                                     if approx_leq(m_next.dist_obs, lattice_best[m_next.shortkey].dist_obs):
-                                        cur_lattice_new[m_next.key].update(m_next)
+                                        self.lattice[obs_idx].upsert(m_next)
                                     else:
                                         m_next.stop = True
                                         if __debug__ and logger.isEnabledFor(logging.DEBUG):
                                             logger.debug(f"   | Stopped trace: distance larger than best for key {m_next.shortkey}: "
                                                          f"{m_next.dist_obs} > {lattice_best[m_next.shortkey].dist_obs}")
                                 else:
-                                    cur_lattice_new[m_next.key].update(m_next)
+                                    self.lattice[obs_idx].upsert(m_next)
                             else:
                                 if m_next.shortkey in lattice_best:
                                     # if m_next.logprob > lattice_best[m_next.shortkey].logprob:
@@ -1033,7 +1039,7 @@ class BaseMatcher:
                                 if m_next.shortkey in lattice_best:
                                     # if m_next.logprob > lattice_best[m_next.shortkey].logprob:
                                     if m_next.dist_obs < lattice_best[m_next.shortkey].dist_obs:
-                                        cur_lattice_new[m_next.key] = m_next
+                                        self.lattice[obs_idx].upsert(m_next)
                                         lattice_best[m_next.shortkey] = m_next
                                         # lattice_toinsert.append(m_next)
                                     elif __debug__ and logger.isEnabledFor(logging.DEBUG):
@@ -1041,7 +1047,7 @@ class BaseMatcher:
                                         cur_lattice_new[m_next.key] = m_next
                                         # lattice_toinsert.append(m_next)
                                 else:
-                                    cur_lattice_new[m_next.key] = m_next
+                                    self.lattice[obs_idx].upsert(m_next)
                                     lattice_best[m_next.shortkey] = m_next
                                     # lattice_toinsert.append(m_next)
                             # cur_lattice_new.add(m_next)
